@@ -65,7 +65,7 @@ def build_unit(name, canary=False):
     reg = registry()
     cfg = reg["units"][name]
     repo = mkrepo(cfg)
-    asm = U.assemble(repo, cfg["fragments"], canary=canary)
+    asm = U.assemble(repo, cfg["fragments"], canary=canary, canary_frags=cfg.get("canary_fragments"))
     os.makedirs(BUILD, exist_ok=True)
     path = os.path.join(BUILD, name + ("_canary" if canary else "") + ".rs")
     with open(path, "w", encoding="utf-8") as f:
@@ -308,9 +308,10 @@ def cmd_check(pid, tier):
 
     undecided = [r for r in results.values() if r["status"] == "undecided"]
     extra_results = []
-    if "async_identity" in pcfg.get("extra", []):
+    if "async_identity" in pcfg.get("extra", []) or "async_identity_ns" in pcfg.get("extra", []):
         from . import asyncid
-        for (name, ok, detail) in asyncid.check(repo_root()):
+        pairs = asyncid.PAIRS_NS if "async_identity_ns" in pcfg.get("extra", []) else asyncid.PAIRS
+        for (name, ok, detail) in asyncid.check(repo_root(), pairs):
             extra_results.append({"check": "async text identity: " + name, "ok": ok, "detail": detail})
             if ok is not True:
                 undecided.append({"unit": "async_identity", "reason": "async instantiation of %s is not the verified text: %s" % (name, detail)})
